@@ -618,3 +618,126 @@ Proof.
       replace (ds + (n - ds - S j))%nat with (n - ds - 1 - j + ds)%nat by lia.
       unfold g. cbn [fst snd]. rewrite Nat.add_succ_r, Nat2Z.inj_succ. reflexivity.
 Qed.
+
+Lemma loops_rotate_digits_left w n a k : 0 < w -> wf w n a -> (k <= n)%nat ->
+  forall fuel, (n <= fuel)%nat ->
+  Loops.rotate_digits_left w (Z.of_nat n) fuel a (Z.of_nat k) = Done (rotate_digits_left a k).
+Proof.
+  intros Hw [Ha _] Hk fuel Hf. unfold Loops.rotate_digits_left, rotate_digits_left. rewrite Nat2Z.id, Ha.
+  set (lo := firstn (n - k) a). set (hi := skipn (n - k) a).
+  assert (Hlo : length lo = (n - k)%nat) by (unfold lo; rewrite firstn_length; lia).
+  assert (Hhi : length hi = k) by (unfold hi; rewrite skipn_length; lia).
+  (* first loop: out[k..n) := a[0..n-k) *)
+  rewrite (loop_writes0 (fun out (_ : unit) j => (out, Z.of_nat (k + j))) (fun j => (k + j)%nat)
+             (fun j c => (nth j lo 0, tt)) _ _ (n - k) n fuel (ZERO n) tt);
+    try first [reflexivity | apply repeat_length | lia | (rewrite Nat.add_0_r; reflexivity)].
+  - rewrite run_writes_up by (unfold ZERO; rewrite repeat_length; lia). cbn [bind fst snd].
+    rewrite <- Hlo. rewrite (scan_idx_scan1 (fun x (_ : unit) => (x, tt)) lo) by (intros; reflexivity).
+    rewrite (scan1_map (fun x => x)). cbn [fst]. rewrite map_id. rewrite Nat.add_0_r.
+    unfold ZERO. rewrite firstn_repeat, skipn_repeat.
+    replace (Nat.min k n) with k by lia. replace (n - (k + length lo))%nat with 0%nat by lia.
+    cbn [repeat]. rewrite app_nil_r.
+    rewrite usub_nat by lia. cbn [bind].
+    (* second loop: out[0..k) := a[n-k..n) *)
+    rewrite (loop_writes0 (fun out (_ : unit) j => (out, Z.of_nat (n - k + j))) (fun j => (0 + j)%nat)
+               (fun j c => (nth j hi 0, tt)) _ _ k n fuel (repeat 0 k ++ lo) tt);
+      try first [reflexivity | lia | (rewrite Nat.add_0_r; reflexivity) | (rewrite app_length, repeat_length; lia)].
+    + rewrite run_writes_up by (rewrite app_length, repeat_length; lia). cbn [bind fst snd Nat.add firstn app].
+      rewrite <- Hhi at 1. rewrite (scan_idx_scan1 (fun x (_ : unit) => (x, tt)) hi) by (intros; reflexivity).
+      rewrite (scan1_map (fun x => x)). cbn [fst]. rewrite map_id.
+      rewrite skipn_app, repeat_length, Nat.sub_diag. rewrite skipn_all2 by (rewrite repeat_length; lia).
+      reflexivity.
+    + intros out c j Hj. rewrite ltb_of_nat. apply Nat.ltb_lt. lia.
+    + intros out c. rewrite ltb_of_nat. apply Nat.ltb_ge. lia.
+    + intros out c j Hj Hl. body_red. rewrite arr_get_nat by lia. cbn [bind].
+      rewrite usub_nat by lia. cbn [bind]. rewrite arr_set_nat by lia. cbn [bind fst snd Nat.add].
+      replace (n - k + j - (n - k))%nat with j by lia. unfold hi. rewrite nth_skipn_add.
+      rewrite Nat.add_succ_r, Nat2Z.inj_succ. reflexivity.
+  - intros out c j Hj. rewrite ltb_of_nat. apply Nat.ltb_lt. lia.
+  - intros out c. rewrite ltb_of_nat. apply Nat.ltb_ge. lia.
+  - intros out c j Hj Hl. body_red. rewrite usub_nat by lia. cbn [bind].
+    rewrite arr_get_nat by lia. cbn [bind]. rewrite arr_set_nat by lia. cbn [bind fst snd].
+    replace (k + j - k)%nat with j by lia. unfold lo. rewrite nth_firstn_lt by lia.
+    rewrite Nat.add_succ_r, Nat2Z.inj_succ. reflexivity.
+Qed.
+
+Lemma loops_swap_bytes w n a : 0 < w -> wf w n a ->
+  forall fuel, (n <= fuel)%nat -> Loops.swap_bytes w (Z.of_nat n) fuel a = Done (swap_bytes w a).
+Proof.
+  intros Hw [Ha _] fuel Hf. unfold Loops.swap_bytes, swap_bytes. rewrite Nat2Z.id.
+  rewrite <- Ha, <- rev_length.
+  rewrite (loop_map1_all (u_swap_bytes w) (rev a)); try first [apply repeat_length | reflexivity | (rewrite rev_length; lia)].
+  intros out j Hj Hl. rewrite rev_length in *. body_red.
+  rewrite (usub_ok (Z.of_nat (length a)) 1) by lia. cbn [bind]. rewrite usub_ok by lia. cbn [bind].
+  replace (Z.of_nat (length a) - 1 - Z.of_nat j) with (Z.of_nat (length a - S j)) by lia.
+  rewrite arr_get_nat by lia. cbn [bind]. rewrite arr_set_nat by lia. cbn [bind].
+  rewrite rev_nth by lia. reflexivity.
+Qed.
+
+Lemma loops_reverse_bits w n a : 0 < w -> wf w n a ->
+  forall fuel, (n <= fuel)%nat -> Loops.reverse_bits w (Z.of_nat n) fuel a = Done (reverse_bits w a).
+Proof.
+  intros Hw [Ha _] fuel Hf. unfold Loops.reverse_bits, reverse_bits. rewrite Nat2Z.id.
+  rewrite <- Ha, <- rev_length.
+  rewrite (loop_map1_all (u_reverse_bits w) (rev a)); try first [apply repeat_length | reflexivity | (rewrite rev_length; lia)].
+  intros out j Hj Hl. rewrite rev_length in *. body_red.
+  rewrite (usub_ok (Z.of_nat (length a)) 1) by lia. cbn [bind]. rewrite usub_ok by lia. cbn [bind].
+  replace (Z.of_nat (length a) - 1 - Z.of_nat j) with (Z.of_nat (length a - S j)) by lia.
+  rewrite arr_get_nat by lia. cbn [bind]. rewrite arr_set_nat by lia. cbn [bind].
+  rewrite rev_nth by lia. reflexivity.
+Qed.
+
+Lemma loops_unchecked_rotate_left w lg n a rhs : 0 <= lg -> w = 2 ^ lg -> wf w n a ->
+  0 <= rhs <= bits w n ->
+  forall fuel, (n <= fuel)%nat ->
+  Loops.unchecked_rotate_left w (Z.of_nat n) fuel a rhs = Done (unchecked_rotate_left w a rhs).
+Proof.
+  intros Hlg Hwl Hwf Hr fuel Hf. pose proof Hwf as [Ha _].
+  assert (Hw : 0 < w) by (subst w; apply Z.pow_pos_nonneg; lia).
+  unfold Loops.unchecked_rotate_left, unchecked_rotate_left.
+  destruct (pow2_split w lg rhs Hlg Hwl ltac:(lia)) as [-> ->].
+  unfold bits in Hr.
+  assert (Hq : 0 <= rhs / w <= Z.of_nat n).
+  { split; [apply Z.div_pos; lia|]. apply Z.div_le_upper_bound; lia. }
+  pose proof (Z.mod_pos_bound rhs w Hw) as Hm.
+  set (ds := Z.to_nat (rhs / w)). assert (Hds : rhs / w = Z.of_nat ds) by (unfold ds; lia).
+  rewrite Hds. set (bs := rhs mod w) in *.
+  rewrite (loops_rotate_digits_left w n a ds Hw Hwf ltac:(lia) fuel Hf). cbn [bind].
+  set (out0 := rotate_digits_left a ds).
+  assert (Hout0 : length out0 = n).
+  { unfold out0, rotate_digits_left. rewrite app_length, skipn_length, firstn_length. lia. }
+  destruct (bs =? 0) eqn:Ebs; cbn [negb]; [reflexivity|].
+  apply Z.eqb_neq in Ebs. rewrite usub_ok by lia. cbn [bind].
+  assert (Hn : (0 < n)%nat).
+  { destruct n; [|lia]. exfalso. assert (rhs = 0) by lia. subst rhs. unfold bs in Ebs.
+    rewrite Z.mod_0_l in Ebs by lia. lia. }
+  apply while_count_bind with (n := n) (k := 0%nat)
+    (Inv := fun k '(out, carry, i) =>
+       i = Z.of_nat k /\ (k <= n)%nat /\ length out = n /\ skipn k out = skipn k out0 /\
+       shl_bits w bs out0 0 = firstn k out ++ shl_bits w bs (skipn k out0) carry /\
+       shl_bits_carry w bs out0 0 = shl_bits_carry w bs (skipn k out0) carry).
+  - intros k [[out carry] i] (-> & Hk & Hlen & Hsk & Hsb & Hsc) Hc.
+    rewrite ltb_of_nat in Hc. apply Nat.ltb_lt in Hc. split; [exact Hc|].
+    rewrite arr_get_nat by lia. cbn [bind]. rewrite dshl_ok by lia. cbn [bind].
+    rewrite arr_set_nat by lia. cbn [bind]. rewrite dshr_ok by lia. cbn [bind].
+    assert (Hd : nth k out 0 = nth k out0 0).
+    { pose proof (nth_skipn_add out k 0) as H1. pose proof (nth_skipn_add out0 k 0) as H2.
+      rewrite Nat.add_0_r in H1, H2. rewrite <- H1, <- H2, Hsk. reflexivity. }
+    rewrite Hd. rewrite (skipn_nth_cons out0 k) in Hsb, Hsc by lia. cbn [shl_bits shl_bits_carry] in Hsb, Hsc.
+    split; [lia|]. split; [lia|]. split; [rewrite list_set_length; exact Hlen|].
+    split.
+    { rewrite skipn_S_list_set. rewrite !skipn_S_tl, Hsk. reflexivity. }
+    split.
+    { rewrite Hsb. rewrite firstn_S_list_set by lia. rewrite <- app_assoc. reflexivity. }
+    exact Hsc.
+  - intros k [[out carry] i] (-> & Hk & Hlen & Hsk & Hsb & Hsc) Hc.
+    rewrite ltb_of_nat in Hc. apply Nat.ltb_ge in Hc. assert (k = n) by lia. subst k.
+    rewrite (skipn_all2 out0) in Hsb, Hsc by lia. cbn [shl_bits shl_bits_carry] in Hsb, Hsc.
+    rewrite app_nil_r, firstn_all2 in Hsb by lia. rewrite Hsb, Hsc.
+    destruct out as [|d t]; [cbn [length] in Hlen; lia|].
+    change 0 with (Z.of_nat 0) at 1 2. rewrite arr_get_nat by (cbn [length]; lia). cbn [bind].
+    rewrite arr_set_nat by (cbn [length]; lia). reflexivity.
+  - split; [reflexivity|]. split; [lia|]. split; [exact Hout0|]. split; [reflexivity|].
+    split; reflexivity.
+  - lia.
+Qed.
